@@ -6,6 +6,7 @@
   the server by the correspondence run of lib/c01.py.  Property theorems only.
 -/
 import FerrousSpec.Proofs.KsLaws
+import FerrousSpec.Proofs.KsGlob
 set_option linter.unusedSimpArgs false
 namespace Ferrous.C01
 open Ferrous Ferrous.KS
@@ -179,6 +180,40 @@ theorem randomkey_mem (db : Db) (obs : Option (List Bytes)) (k : Bytes)
       exact hk
     · simp [bulk] at h
   · split at h <;> simp [bulk, nil] at h
+
+/-- KEYS answers exactly the keys of the database the pattern matches, every one of them and
+    nothing else, never changes the dataset, and lists as many names as there are matching keys
+    (no duplicates when the key names are distinct, which `reachable_wellformed` gives). -/
+theorem keys_sound_complete (db : Db) (p : Bytes) :
+    ∃ l : List Bytes, cmdKeys db [p] = (db, bulks l) ∧
+      (∀ k, k ∈ l ↔ (k ∈ db.map (·.1) ∧ glob p k = true)) ∧
+      l.length = ((db.map (·.1)).filter fun k => glob p k).length := by
+  refine ⟨sortBytes ((db.map (·.1)).filter fun k => glob p k), rfl, ?_, length_sortBytes _⟩
+  intro k
+  rw [mem_sortBytes, List.mem_filter]
+
+/-- The matcher on the two pattern forms nearly every client sends: a pattern without special
+    bytes (`*` `?` `[` `\`) selects exactly the key of that name, for EVERY such pattern and key … -/
+theorem glob_literal (p s : Bytes) (hp : p.all plain = true) : glob p s = decide (p = s) :=
+  globF_literal p _ s hp (by omega)
+
+/-- … and `*` selects every key. -/
+theorem glob_star_all (s : Bytes) : glob [42] s = true :=
+  globF_star_all s _ (by simp; omega)
+
+/-- `KEYS *` lists every key of the database. -/
+theorem keys_star_lists_all (db : Db) (k : Bytes) (hk : k ∈ db.map (·.1)) :
+    ∃ l : List Bytes, cmdKeys db [[42]] = (db, bulks l) ∧ k ∈ l := by
+  obtain ⟨l, h1, h2, _⟩ := keys_sound_complete db [42]
+  exact ⟨l, h1, (h2 k).mpr ⟨hk, glob_star_all k⟩⟩
+
+/-- Character classes at the edges of `stringmatchlen` (tests of the model on literals, labelled as
+    such: the general statement for classes is the refinement proved for the engine's matcher in
+    C19): reversed range, escapes inside a class, unterminated class, `a-]` as a range, lone `[^`. -/
+example : glob [91, 99, 45, 97, 93] [98] = true ∧ glob [91, 92, 93, 93] [93] = true ∧
+    glob [91, 97, 92, 45, 99, 93] [98] = false ∧ glob [91, 97, 92, 45, 99, 93] [45] = true ∧
+    glob [91, 97, 98] [98] = true ∧ glob [91, 97, 45, 93] [95] = true ∧ glob [91, 94] [120] = true ∧
+    glob [91] [91] = false ∧ glob [91, 93] [93] = false := by decide
 
 /-- FLUSHDB empties the selected database only; FLUSHALL empties all of them. -/
 theorem flushdb_only_selected (q : Quirks) (s : Store) (i j now : Nat) (hij : j ≠ i) :
